@@ -604,6 +604,12 @@ func chanBorders(o vh.Opts, g gen) *vh.Channel {
 	for i := 0; i < n; i++ {
 		maxMid := g.r.Range(1, 12)
 		ids := g.idTable(g.r.Intn(41), maxMid)
+		if g.r.Chance(1, 6) { // mids of 0 at the old end of the table, incl. the ID {0,0} (model and code agree that it falls outside from = 0)
+			ids = append(ids, seq.ID{MID: 0, RID: 5})
+			if g.r.Bool() {
+				ids = append(ids, seq.ID{MID: 0, RID: 0})
+			}
+		}
 		from, to := uint64(g.r.Intn(maxMid+3)), uint64(g.r.Intn(maxMid+3))
 		switch g.r.Intn(8) {
 		case 0:
@@ -854,7 +860,7 @@ var sealParams = frac.SealParams{IDsZstdLevel: -5, LIDsZstdLevel: -5, TokenListZ
 
 // newActive ingests the documents in the given (arrival) order, in bulks of bulkSize, waiting for the indexer
 // after every bulk so that arrival LIDs are deterministic.
-func (e *env) newActive(docs []doc, bulkSize int) (*frac.Active, string, error) {
+func (e *env) newActive(docs []doc, bulkSize int, afterBulk func(a *frac.Active, ingested int)) (*frac.Active, string, error) {
 	e.n++
 	base := filepath.Join(e.dir, fmt.Sprintf("seq-db-%04d", e.n))
 	a := frac.NewActive(base, e.indexer, e.rl, e.cm.CreateDocBlockCache(), e.cm.CreateSortDocsCache(), &frac.Config{})
@@ -882,6 +888,9 @@ func (e *env) newActive(docs []doc, bulkSize int) (*frac.Active, string, error) 
 		if dp.DocCount >= bulkSize {
 			if err := flush(); err != nil {
 				return nil, "", err
+			}
+			if afterBulk != nil && i+1 < len(docs) {
+				afterBulk(a, i+1)
 			}
 		}
 	}
@@ -980,16 +989,48 @@ func (g gen) corpus(n, maxMid int) []doc {
 	return docs
 }
 
-type sysCase struct {
-	kind  string // active | sealed | reopened
-	w     window
-	query string
-	docs  string
-	impl  string
+// step: one question asked when `n` documents of the corpus had been ingested (n = len(docs): final state).
+type step struct {
+	n   int
+	w   window
+	ast *parser.ASTNode
+	enc string
 }
 
-func (c sysCase) line() string {
-	return fmt.Sprintf("sys %s %s %s %s", c.kind, c.w, c.docs, c.query)
+// history of one corpus: bulk size, documents in arrival order, every question in the order it was asked.
+// A token's posting list goes through one sort-and-merge round (TokenLIDs.GetLIDs / mergeSorted) each time a
+// question touches it after new documents arrived, so the history is part of the input.
+type history struct {
+	bulk  int
+	docs  []doc
+	steps []step
+}
+
+func (h *history) lines() []string {
+	ls := []string{fmt.Sprintf("corpus %d %s", h.bulk, docsString(h.docs))}
+	for _, s := range h.steps {
+		ls = append(ls, fmt.Sprintf("ask %d %s %s", s.n, s.w, s.enc))
+	}
+	return ls
+}
+
+type sysCase struct {
+	kind  string // active-mid (asked while documents were still arriving) | active | sealed | reopened
+	n     int
+	w     window
+	query string
+	docs  string // the documents ingested when the question was asked
+	impl  string
+	h     *history
+	large bool
+}
+
+func (c sysCase) key() string {
+	return fmt.Sprintf("%s %d %s %s", c.kind, c.n, c.w, c.query)
+}
+
+func (c sysCase) replay() []string {
+	return append(c.h.lines(), "expect "+c.key())
 }
 
 // activeRequest renders the arrival tables of the real fraction for ActiveIndex.search.
@@ -1025,20 +1066,33 @@ func activeRequest(a *frac.Active, docs []doc, w window, q string) string {
 	return fmt.Sprintf("active.search %s %s %s %s", w, fmtIDs(ids), f.toksString(), q)
 }
 
-// runCorpus builds the three forms of one corpus and asks every query of qs on each.
-func runCorpus(e *env, docs []doc, bulk int, qs []*parser.ASTNode, ws []window, act *vh.Channel) ([]sysCase, error) {
+// runCorpus ingests the corpus bulk by bulk, asks the mid-ingestion questions of the history at their bulk
+// boundary, then asks the final questions on the active fraction, on the sealed fraction made from it and on the
+// same sealed fraction re-opened from disk.
+func runCorpus(e *env, h *history, act *vh.Channel) ([]sysCase, error) {
 	var cases []sysCase
-	a, base, err := e.newActive(docs, bulk)
+	docs := h.docs
+	ask := func(a *frac.Active, s step, kind string) {
+		impl := searchFrac(a, s.ast, s.w)
+		cases = append(cases, sysCase{kind: kind, n: s.n, w: s.w, query: s.enc, docs: docsString(docs[:s.n]), impl: impl, h: h})
+		if act != nil {
+			act.Add(activeRequest(a, docs[:s.n], s.w, s.enc), impl, nonEmpty(impl), append(s.w.tags(), "when="+kind)...)
+		}
+	}
+	a, base, err := e.newActive(docs, h.bulk, func(a *frac.Active, n int) {
+		for _, s := range h.steps {
+			if s.n == n && n < len(docs) {
+				ask(a, s, "active-mid")
+			}
+		}
+	})
 	if err != nil {
 		return nil, err
 	}
 	ds := docsString(docs)
-	for i, q := range qs {
-		enc := encAST(q)
-		impl := searchFrac(a, q, ws[i])
-		cases = append(cases, sysCase{"active", ws[i], enc, ds, impl})
-		if act != nil {
-			act.Add(activeRequest(a, docs, ws[i], enc), impl, nonEmpty(impl), ws[i].tags()...)
+	for _, s := range h.steps {
+		if s.n == len(docs) {
+			ask(a, s, "active")
 		}
 	}
 	if len(docs) == 0 {
@@ -1049,12 +1103,76 @@ func runCorpus(e *env, docs []doc, bulk int, qs []*parser.ASTNode, ws []window, 
 	if err != nil {
 		return nil, err
 	}
-	for i, q := range qs {
-		enc := encAST(q)
-		cases = append(cases, sysCase{"sealed", ws[i], enc, ds, searchFrac(pre, q, ws[i])})
-		cases = append(cases, sysCase{"reopened", ws[i], enc, ds, searchFrac(re, q, ws[i])})
+	for _, s := range h.steps {
+		if s.n == len(docs) {
+			cases = append(cases, sysCase{kind: "sealed", n: s.n, w: s.w, query: s.enc, docs: ds, impl: searchFrac(pre, s.ast, s.w), h: h})
+			cases = append(cases, sysCase{kind: "reopened", n: s.n, w: s.w, query: s.enc, docs: ds, impl: searchFrac(re, s.ast, s.w), h: h})
+		}
 	}
 	return cases, nil
+}
+
+// plan draws the questions of one corpus: every query at the end, and each query with probability 1/3 at every
+// bulk boundary (mid = false: only at the end).
+func plan(g gen, docs []doc, bulk int, qs []*parser.ASTNode, ws []window, mid bool) *history {
+	h := &history{bulk: bulk, docs: docs}
+	if mid {
+		for n := bulk; n < len(docs); n += bulk {
+			for i := range qs {
+				if g.r.Chance(1, 3) {
+					h.steps = append(h.steps, step{n, ws[i], qs[i], encAST(qs[i])})
+				}
+			}
+		}
+	}
+	for i := range qs {
+		h.steps = append(h.steps, step{len(docs), ws[i], qs[i], encAST(qs[i])})
+	}
+	return h
+}
+
+func parseWindow(f []string) window { // order from to limit withTotal
+	w := window{withTotal: f[4] == "1"}
+	if f[0] == "asc" {
+		w.order = seq.DocsOrderAsc
+	}
+	w.from, _ = strconv.ParseUint(f[1], 10, 64)
+	w.to, _ = strconv.ParseUint(f[2], 10, 64)
+	w.limit, _ = strconv.Atoi(f[3])
+	return w
+}
+
+// replayHistories parses `corpus` / `ask` / `expect` lines; returns the histories and the expected case keys.
+func replayHistories(lines []string) ([]*history, []map[string]bool, error) {
+	var hs []*history
+	var expects []map[string]bool
+	for _, l := range lines {
+		f := strings.Fields(l)
+		switch {
+		case len(f) == 3 && f[0] == "corpus":
+			b, err := strconv.Atoi(f[1])
+			if err != nil || b <= 0 {
+				return nil, nil, fmt.Errorf("bad bulk size in %q", l[:min(len(l), 80)])
+			}
+			docs, err := parseDocs(f[2])
+			if err != nil {
+				return nil, nil, err
+			}
+			hs = append(hs, &history{bulk: b, docs: docs})
+			expects = append(expects, map[string]bool{})
+		case len(f) == 8 && f[0] == "ask" && len(hs) > 0:
+			n, _ := strconv.Atoi(f[1])
+			ast, _, err := decAST(strings.Split(f[7], "/"))
+			if err != nil {
+				return nil, nil, err
+			}
+			h := hs[len(hs)-1]
+			h.steps = append(h.steps, step{n, parseWindow(f[2:7]), ast, f[7]})
+		case len(f) == 9 && f[0] == "expect" && len(hs) > 0:
+			expects[len(expects)-1][strings.Join(f[1:], " ")] = true
+		}
+	}
+	return hs, expects, nil
 }
 
 func main() {
@@ -1064,7 +1182,7 @@ func main() {
 	rng0 := vh.NewRNG(o.Seed)
 	want := func(name string) bool { return o.Only == "" || o.Only == name }
 
-	orc := vh.NewOracle("search.system", "real frac.Active, frac.Seal + NewSealedPreloaded, and NewSealed re-opened from disk, asked through DataProvider.Search, vs Spec.search over the generated documents (distinct IDs, many equal mids, shuffled arrival, several bulks); corpora 0..60 docs (thorough: also 5000 docs spanning several ID and LID blocks), ASTs depth <= 4 over exact/prefix/suffix/infix/range leaves, windows on/off stored mids, limits 0..n+5, both orders, with/without total; non-trivial = at least one id returned")
+	orc := vh.NewOracle("search.system", "real frac.Active, frac.Seal + NewSealedPreloaded, and NewSealed re-opened from disk, asked through DataProvider.Search, vs Spec.search over the generated documents (distinct IDs, many equal mids, shuffled arrival, several bulks; questions also asked at bulk boundaries while documents are still arriving, so posting lists go through several sort-and-merge rounds); corpora 0..60 docs (thorough: also 5000 docs spanning several ID blocks and 70000 docs whose `_all_` list exceeds one LID block), ASTs depth <= 4 over exact/prefix/suffix/infix/range leaves, windows on/off stored mids, limits 0..n+5, both orders, with/without total; non-trivial = at least one id returned")
 
 	var sys []sysCase
 	var actCh *vh.Channel
@@ -1078,35 +1196,18 @@ func main() {
 			fmt.Fprintln(os.Stderr, err)
 			os.Exit(3)
 		}
-		for _, l := range lines {
-			f := strings.Fields(l)
-			if len(f) != 9 || f[0] != "sys" {
-				continue
-			}
-			docs, err := parseDocs(f[7])
-			if err != nil {
-				orc.Error = err.Error()
-				continue
-			}
-			ast, _, err := decAST(strings.Split(f[8], "/"))
-			if err != nil {
-				orc.Error = err.Error()
-				continue
-			}
-			w := window{withTotal: f[6] == "1"}
-			if f[2] == "asc" {
-				w.order = seq.DocsOrderAsc
-			}
-			w.from, _ = strconv.ParseUint(f[3], 10, 64)
-			w.to, _ = strconv.ParseUint(f[4], 10, 64)
-			w.limit, _ = strconv.Atoi(f[5])
-			cs, err := runCorpus(e, docs, 7, []*parser.ASTNode{ast}, []window{w}, nil)
+		hs, expects, err := replayHistories(lines)
+		if err != nil {
+			orc.Error = err.Error()
+		}
+		for k, h := range hs {
+			cs, err := runCorpus(e, h, nil)
 			if err != nil {
 				orc.Error = err.Error()
 				continue
 			}
 			for _, c := range cs {
-				if c.kind == f[1] {
+				if expects[k][c.key()] {
 					sys = append(sys, c)
 				}
 			}
@@ -1151,7 +1252,7 @@ func main() {
 					qs = append(qs, g.ast(g.r.Range(0, 4), g.leaf))
 					ws = append(ws, g.window(maxMid, n))
 				}
-				cs, err := runCorpus(e, docs, g.r.Range(1, 25), qs, ws, actCh)
+				cs, err := runCorpus(e, plan(g, docs, g.r.Range(1, 25), qs, ws, true), actCh)
 				if err != nil {
 					orc.Error = err.Error()
 					break
@@ -1177,13 +1278,13 @@ func main() {
 						}
 						ws = append(ws, w)
 					}
-					cs, err := runCorpus(e, docs, big.bulk, qs, ws, nil)
+					cs, err := runCorpus(e, plan(g, docs, big.bulk, qs, ws, false), nil)
 					if err != nil {
 						orc.Error = err.Error()
 						break
 					}
 					for i := range cs {
-						cs[i].kind += "-large"
+						cs[i].large = true
 					}
 					sys = append(sys, cs...)
 				}
@@ -1208,27 +1309,27 @@ func main() {
 			orc.Error = err.Error()
 		} else {
 			for i, c := range sys {
-				kind := strings.TrimSuffix(c.kind, "-large")
-				tags := append(c.w.tags(), "frac="+c.kind)
-				if nonEmpty(c.impl) {
-					tags = append(tags, "nonempty/"+c.kind)
+				kind := c.kind
+				label := c.kind
+				if c.large {
+					label += "-large"
 				}
-				orc.Case(vh.Hash(c.line()), nonEmpty(c.impl), tags...)
+				tags := append(c.w.tags(), "frac="+label)
+				if nonEmpty(c.impl) {
+					tags = append(tags, "nonempty/"+label)
+				}
+				orc.Case(vh.Hash(c.key(), c.docs), nonEmpty(c.impl), tags...)
 				if spec[i] == "bad-op" {
 					orc.Error = "driver answered bad-op for " + reqs[i][:min(200, len(reqs[i]))]
 					continue
 				}
 				if c.impl != spec[i] {
 					site := "frac/active_index.go:activeDataProvider.Search"
-					if kind != "active" {
+					if !strings.HasPrefix(kind, "active") {
 						site = "frac/sealed_index.go:sealedDataProvider.Search"
 					}
-					what := fmt.Sprintf("%s fraction answered %q, Spec.search says %q", c.kind, trunc(c.impl), trunc(spec[i]))
-					line := c.line()
-					if len(line) > 400000 {
-						line = line[:400000] // a replay of a large corpus is truncated (and then not re-runnable); small corpora come first
-					}
-					rep.Violate(vh.Violation{Site: site, Class: "search-differs-from-spec/" + ord(c.w.order), What: what, Replay: []string{line}})
+					what := fmt.Sprintf("%s fraction answered %q, Spec.search says %q", label, trunc(c.impl), trunc(spec[i]))
+					rep.Violate(vh.Violation{Site: site, Class: "search-differs-from-spec/" + ord(c.w.order), What: what, Replay: c.replay()})
 				}
 			}
 		}
